@@ -18,7 +18,8 @@ Record ostep := {
   o_status : Z;                    (* HTTP status of the proxy's response *)
   o_signin : bool;                 (* Location points at the provider's sign_in endpoint *)
   o_cookie : cookie_effect;        (* last Set-Cookie for the session cookie, re-opened *)
-  o_calls : list endpoint }.       (* authenticator endpoints called, in order *)
+  o_calls : list endpoint;         (* authenticator endpoints called, in order *)
+  o_issued_at : option Z }.        (* histories: virtual time at which the presented cookie was sealed (harness ghost) *)
 
 Record hcase := {
   h_cfg : cfg; h_pol : upolicy; h_tab : list (str * str);
